@@ -1,5 +1,6 @@
 import UrcuVerif.Handshake.TsoInv
 import UrcuVerif.Handshake.WaitNode
+import UrcuVerif.Handshake.QsbrTsoInv
 /-!
 # C02 — Grace periods always complete once readers leave: no lost wake-up, no deadlock
 
@@ -142,3 +143,41 @@ example : (run init [.wSeeWaiting, .wSleep, .lStore, .lLoad, .lFlush, .lWake, .w
 example : run init [.lStore, .lFlush, .wSeeWoken, .wOrRunning, .wSeeTeardown] = none := by decide
 
 end UrcuVerif.WaitNode
+
+namespace UrcuVerif.QsbrHs
+
+/-- **qsbr_no_lost_wakeup** (x86-TSO, any number of readers, all interleavings, all spurious-return
+placements): whenever the QSBR grace-period leader sleeps on `rcu_gp.futex`, some reader is still
+going to see its `waiting` flag, reset the futex and call `FUTEX_WAKE`, or has its `futex := 0`
+on the way with the `FUTEX_WAKE` still to come. -/
+theorem qsbr_no_lost_wakeup (c : Cfg) {s : State} (h : Reach c s) (hs : s.wpc = .wsleep) :
+    ∃ i, i < c.n ∧ (willWake s i ∨ s.kpc i = .k5) := by
+  have I := inv_reach c h
+  rcases I.fut_range with h0 | h1
+  · obtain ⟨i, hi, hk⟩ := I.asleep_0 hs h0
+    exact ⟨i, hi, Or.inr hk⟩
+  · obtain ⟨i, hi, hk⟩ := I.asleep_m1 (Or.inr hs) h1
+    exact ⟨i, hi, Or.inl hk⟩
+
+/-- after the updater's barrier every reader that has not yet announced its quiescent state (or
+is about to test its flag) finds `waiting[i]` set -/
+theorem qsbr_armed_visible (c : Cfg) {s : State} (h : Reach c s)
+    (hw : s.wpc = .w1 ∨ s.wpc = .w2 ∨ s.wpc = .wsleep) (i : Nat) (hi : i < c.n)
+    (hk : s.kpc i = .k0 ∨ s.kpc i = .k1) : s.waiting i = true :=
+  (inv_reach c h).armed_vis hw i hi hk
+
+def run (c : Cfg) : State → List Label → Option State
+  | s, [] => some s
+  | s, l :: ls => match step c s l with
+    | none => none
+    | some s' => run c s' ls
+
+/-- non-vacuity: the leader sleeps and is woken through the waiting flag -/
+example : (run { n := 1 } init [.w0, .wArm 0, .flushFutM1, .flushWait 0, .wMb, .w1Some 0, .w2Sleep, .k0 0, .k1Set 0, .k2 0,
+    .flushW0 0, .kf 0, .k3 0, .k4Wake 0, .flushF0 0, .k5 0, .w2Ret]).map (fun s => (s.wpc, s.futex, s.kpc 0)) =
+    some (.w0, 0, .k9) := by decide
+/-- a reader that tests its flag before the updater's stores are visible is seen by the scan -/
+example : (run { n := 1 } init [.w0, .wArm 0, .k0 0, .k1Clear 0, .flushFutM1, .flushWait 0, .wMb, .w1All, .w4]).map
+    (fun s => (s.wpc, s.futex)) = some (.wdone, 0) := by decide
+
+end UrcuVerif.QsbrHs
